@@ -381,6 +381,7 @@ type crashOutcome struct {
 	histD       string
 	tagCounts   map[string]int
 	sessionBad  bool
+	chained     int
 }
 
 type crashPlan struct {
@@ -399,17 +400,43 @@ func structural(kind string) bool {
 	return false
 }
 
+// crashBase starts a case from a recovered crash image instead of an empty directory (mode "chain": crash, recover,
+// keep operating, crash again).
+type crashBase struct {
+	image *fsmodel.FS
+	state map[string]string // what the recovered image reads as: the baseline of the continued history
+	desc  string
+}
+
 func runCrashCase(c *Ctx, dc dbCase, tape *simrt.Tape, plan crashPlan) crashOutcome {
+	return runCrashCaseFrom(c, dc, tape, plan, nil)
+}
+
+func runCrashCaseFrom(c *Ctx, dc dbCase, tape *simrt.Tape, plan crashPlan, base *crashBase) crashOutcome {
 	out := crashOutcome{tagCounts: map[string]int{}}
 	dir := freshDir(c, "db")
 	defer os.RemoveAll(dir)
+	if base != nil {
+		if err := base.image.Materialize(dir); err != nil {
+			panic(err)
+		}
+	}
 	r := newDBRunner(c.T, dir, tape, dc.Keys)
+	sessBase := 0
+	if base != nil {
+		sessBase = 50
+		for _, k := range dc.Keys {
+			if v, ok := base.state[k]; ok {
+				r.hist = append(r.hist, &opRec{ID: -1, Kind: "put", Key: k, Val: v, Inv: -2, Ret: -1})
+			}
+		}
+	}
 	// file systems list directories in different orders: every RemoveAll of the session (compaction inputs, the WAL
 	// folder at Open) deletes in a tape-chosen order in half of the cases
 	r.w.PermuteUnlink = dc.PermuteUnlink
 	add := func(sig, detail string) { out.vs = append(out.vs, dbViolation{sig, detail}) }
 	for si, s := range dc.Sessions {
-		res := r.runSession(si, s)
+		res := r.runSession(sessBase+si, s)
 		out.steps += res.Run.Steps
 		out.simTime += res.Run.SimTime
 		out.pickHash = out.pickHash*31 + res.Run.PickHash
@@ -470,9 +497,17 @@ func runCrashCase(c *Ctx, dc dbCase, tape *simrt.Tape, plan crashPlan) crashOutc
 			choose[bi] = true
 		}
 	}
-	// wal file creations (for the async lower bound)
 	m := fsmodel.New()
+	if base != nil {
+		m = base.image.Clone()
+	}
 	cache := map[string]*recovered{}
+	type chainCand struct {
+		img   *fsmodel.FS
+		state map[string]string
+		desc  string
+	}
+	var cands []chainCand
 	// Rotations as the statement of C13 means them, observed without naming any mechanism: a WAL file is created inside
 	// the window of a client call (or of Open / Close); the rotation counts as done once that call has returned, and
 	// then every operation that had returned before the call started must survive. (Counting from the file creation
@@ -590,6 +625,15 @@ func runCrashCase(c *Ctx, dc dbCase, tape *simrt.Tape, plan crashPlan) crashOutc
 			add("close-after-recovery|"+normErr(rec.closeErr)+"|"+tagStr, fmt.Sprintf("Close after recovery fails (%s): %v", where, rec.closeErr))
 			continue
 		}
+		if plan.mode == "chain" && base == nil && !cached && bi > 0 && bi < len(mut) {
+			// candidates to continue from: tagged images first (a flush, compaction or rotation was in progress)
+			pri := len(tags) > 0
+			if len(cands) < 3 {
+				cands = append(cands, chainCand{m.Clone(), rec.state, where})
+			} else if pri && rs.Intn(3) == 0 || rs.Intn(40) == 0 {
+				cands[rs.Intn(len(cands))] = chainCand{m.Clone(), rec.state, where}
+			}
+		}
 		if plan.mode == "leaks" {
 			if len(rec.leaks) > 0 {
 				add("leak-after-recovery-close|"+leakKinds(rec.leaks), fmt.Sprintf("after recovering the crash image and calling Close, still open: %v (%s)", rec.leaks, where))
@@ -613,7 +657,33 @@ func runCrashCase(c *Ctx, dc dbCase, tape *simrt.Tape, plan crashPlan) crashOutc
 			}
 		}
 	}
-	if plan.count {
+	for ci, cand := range cands {
+		// crash -> recovery happens as part of the next session's Open -> more operations -> crash again
+		r2 := rand.New(rand.NewSource(int64(len(trace))*31 + int64(ci)))
+		dc2 := crashGen(r2, "sync", false)
+		dc2.Keys = dc.Keys
+		for si := range dc2.Sessions {
+			for ci2, prog := range dc2.Sessions[si].Clients {
+				for oi := range prog {
+					dc2.Sessions[si].Clients[ci2][oi].Key %= len(dc.Keys)
+				}
+			}
+		}
+		dc2.Sessions = dc2.Sessions[:1]
+		sub := runCrashCaseFrom(c, dc2, simrt.NewTape(int64(len(trace))*17+int64(ci)), crashPlan{mode: "sync", thorough: plan.thorough, all: plan.all}, &crashBase{cand.img, cand.state, cand.desc})
+		out.recoveries += sub.recoveries
+		out.boundaries += sub.boundaries
+		out.steps += sub.steps
+		out.chained++
+		out.imageHashes = append(out.imageHashes, sub.imageHashes...)
+		for t, n := range sub.tagCounts {
+			out.tagCounts[t] += n
+		}
+		for _, v := range sub.vs {
+			out.vs = append(out.vs, dbViolation{"chained|" + v.sig, "after recovering a first crash image (" + cand.desc + ") and continuing: " + v.detail})
+		}
+	}
+	if plan.count && base == nil {
 		if real, err := fsmodel.FromDir(dir); err == nil && !out.sessionBad {
 			if d := fsmodel.Diff(m, real); d != "" {
 				panic("model fidelity: final image differs from the real directory: " + d)
@@ -728,6 +798,7 @@ func crashsimMain(c *Ctx) {
 		c.Count("sched-steps", out.steps)
 		c.Count("boundaries-total", out.boundaries)
 		c.Count("nested-recoveries", out.nested)
+		c.Count("probe:sessions-continued-from-a-recovered-crash-image", out.chained)
 		for _, h := range out.imageHashes {
 			c.Distinct(hash64("img", h))
 		}
